@@ -144,7 +144,10 @@ theorem find_own (l : List (PyVal × PyVal)) (hpw : l.Pairwise (fun p q => keyEq
 theorem diffSet_self (o : OCfg) (xs : List PyVal) : (diffSet o [] xs xs).isEmpty = true := by
   unfold diffSet Diff.diffSet
   simp
-  exact fun a ha => ⟨a, ha, rfl⟩
+  intro a ha h
+  cases hs : skipTypes o (some a) none with
+  | true => rfl
+  | false => exact absurd rfl (h a ha hs)
 
 theorem isClose_self (a : PyVal) (eps : Int × Nat) (p : Int × Nat) (h : numOf a = some p) : isClose a a eps = true := by
   unfold isClose
